@@ -124,9 +124,11 @@ Theorem name_write_sound : forall o n c file t file' t',
 Proof. exact name_write_sound_stmt. Qed.
 Print Assumptions name_write_sound.
 
-(* ... and the invariant holds for the final octets (after the header has been written) *)
-Theorem render_table_sound : forall o m max_size request_payload r,
-  org_ok o -> WfMsg o m -> mtsig m = None -> to_wire_st m o max_size request_payload false 0 = Ok r ->
+(* ... and the invariant holds for the final octets (after the header has been written, the OPT record
+   with or without padding and the TSIG record appended): every offset of the compression table decodes to
+   its key, so every pointer that was written targets an earlier occurrence of exactly that suffix *)
+Theorem render_table_sound : forall o pad m max_size request_payload r,
+  org_ok o -> WfMsg o m -> wf_tsig m -> to_wire_st m o max_size request_payload false pad = Ok r ->
   TableSound (out r) (tbl r).
 Proof. exact render_table_sound_stmt. Qed.
 Print Assumptions render_table_sound.
